@@ -278,3 +278,18 @@ pub const HOSTILE: [&str; 29] = [
     "0", "1", "-1", "0.5", "7e0", " 7 ", "+7", "", "-", "NaN", "nan", "inf", "-inf", "1e999", "1e-320", "2147483647", "2147483648",
     "-2147483648", "131072", "131073", "-131073", "9000", "9001", "0x10", "\u{661}", "\u{FFFD}", "+0", "-0", " 0",
 ];
+
+/// Field-by-field equality of slider control points (coordinates as plain f32 values, spline kind, degree): independent of the
+/// library's own `PartialEq` impls, which a change under test may have weakened.
+pub fn same_control_points(a: &[rosu_map::section::hit_objects::PathControlPoint], b: &[rosu_map::section::hit_objects::PathControlPoint]) -> bool {
+    a.len() == b.len()
+        && a.iter().zip(b).all(|(p, q)| {
+            p.pos.x == q.pos.x
+                && p.pos.y == q.pos.y
+                && match (p.path_type, q.path_type) {
+                    (None, None) => true,
+                    (Some(s), Some(t)) => s.kind as i32 == t.kind as i32 && s.degree.map(|d| d.get()) == t.degree.map(|d| d.get()),
+                    _ => false,
+                }
+        })
+}
